@@ -23,7 +23,7 @@ Contract (taken from the property statement), checked at run time on the REAL
        those arguments;
   (I)  same initial values (initial assignments resolved) and parameter values - also
        after the base parameters were changed in both models;
-  (V)  at every state of a grid (3 states x 2 times, before and after the parameter
+  (V)  at every state of a grid (3 states, before and after the parameter
        change): same derived values, fluxes and derivatives.
 
 The reference is the original model M evaluated through `Model.get_args` /
@@ -49,6 +49,7 @@ from concurrent.futures import ProcessPoolExecutor
 from vlib.core import CheckerError, Ctx, seed
 
 RTOL, ATOL = 1e-9, 1e-12
+SHRINKS_PER_SIGNATURE = 3  # per worker chunk
 
 # ---------------------------------------------------------------------------
 # module-level float constants: the names `k` and `km` are deliberately also formal
@@ -173,6 +174,7 @@ FORMALS = {
 # what is special about a function (reported only when the function itself is part of the minimal core)
 FN_TAGS = {
     "f_ratio": ["formal-named-like-module-float"],
+    "mix": ["formal-named-like-module-float"],
     "f_lin": ["formal-named-like-module-float", "uses-module-float"],
     "lam_mul": ["lambda"], "lam_sub": ["lambda"],
     "looped": ["for-loop"], "uses_exp": ["math-function-call"], "uses_pi": ["math-constant"], "branch": ["if-return"],
@@ -186,6 +188,8 @@ POOLS = {
     "hard": ["looped", "uses_pi", "branch"],
     "hard2": ["uses_exp", "branch", "f_ratio"],
 }
+MAIN_POOLS = ("plain", "formals", "samename", "keyclash")
+FULL_SKELETONS = ("SK1", "SK2")
 BENIGN = ["benign_0", "benign_1", "benign_2", "benign_3"]
 
 # slot kind -> the two model names its arguments are drawn from
@@ -211,7 +215,7 @@ SKELETONS = {
 PATTERNS = ["n1,n2", "n2,n1", "n1,n1"]
 
 STATES = [{"x": 0.7, "y": 1.9}, {"x": 2.3, "y": 0.4}, {"x": 1.1, "y": 1.3}]
-TIMES = [0.0, 1.5]
+TIMES = [0.0, 1.5, 0.0]  # one time per state (no component of the enumerated models reads the time)
 PARAM_CHANGE = {"k": 0.8, "q": 2.6}
 
 
@@ -397,8 +401,8 @@ def compare(m, m2):
         r = _cmp_map(pv2, m.get_parameter_values(), f"{phase}: parameter values")
         if r:
             return "parameter-values-differ", r
-        for st in STATES:
-            for t in TIMES:
+        for st, t in zip(STATES, TIMES, strict=True):
+            if True:
                 want_a = m.get_args(st, t)
                 want_r = m.get_right_hand_side(st, t)
                 try:
@@ -501,16 +505,20 @@ def shrink(case, symptom):
         r = check_case(c)
         return r["outcome"] == "fail" and r["symptom"] == symptom
 
-    for i in range(len(cur["assign"])):
-        f, p = cur["assign"][i]
-        for cand in ([-1, 0], [-1, p], [f, 0]):
-            if cand == [f, p]:
-                continue
-            trial = {"sk": cur["sk"], "pool": cur["pool"], "assign": [list(a) for a in cur["assign"]]}
-            trial["assign"][i] = cand
-            if still(trial):
-                cur = trial
-                break
+    changed = True
+    while changed:  # to a fixpoint: removing one slot can make another one removable
+        changed = False
+        for i in range(len(cur["assign"])):
+            f, p = cur["assign"][i]
+            for cand in ([-1, 0], [-1, p], [f, 0]):
+                if cand == [f, p] or (f < 0 and cand[0] >= 0):
+                    continue
+                trial = {"sk": cur["sk"], "pool": cur["pool"], "assign": [list(a) for a in cur["assign"]]}
+                trial["assign"][i] = cand
+                if still(trial):
+                    cur = trial
+                    changed = True
+                    break
     return cur
 
 
@@ -612,18 +620,19 @@ def all_cases(sk, pool, n):
 
 
 def enumerate_cases(tier, rng):
-    """quick: every assignment to <= 2 components, 3-4 components sampled;
-    thorough: every assignment to <= 3 components and all of 4 for the main pools."""
+    """quick: every assignment to 1 component, to 2 components for the main pools, the rest sampled;
+    thorough: every assignment to <= 3 components, all 6561 assignments to 4 components for the main
+    pools on two skeletons, 1200 sampled per (skeleton, pool) otherwise."""
     out = []
     for sk in SKELETONS:
         for pool in POOLS:
-            main = pool in ("plain", "formals", "samename", "keyclash")
+            main = pool in MAIN_POOLS
             for n in (1, 2, 3, 4):
                 full = list(all_cases(sk, pool, n))
                 if tier == "quick":
-                    quota = {1: None, 2: None, 3: 60 if main else 25, 4: 110 if main else 30}[n]
+                    quota = {1: None, 2: None if main else 40, 3: 45 if main else 15, 4: 80 if main else 20}[n]
                 else:
-                    quota = {1: None, 2: None, 3: None, 4: None if main else 900}[n]
+                    quota = {1: None, 2: None, 3: None, 4: None if (main and sk in FULL_SKELETONS) else 1200}[n]
                 if quota is not None and quota < len(full):
                     full = rng.sample(full, quota)
                 out += full
@@ -642,6 +651,7 @@ def _work(chunk):
     counts = {"ok": 0, "rejected": 0, "skipped": 0, "fail": 0, "ok-although-untranslatable": 0}
     fails = {}  # key -> record (first per key)
     shrink_cache = {}
+    shrunk_per_sig = {}
     nontrivial = 0
     for case in chunk:
         r = check_case(case)
@@ -651,6 +661,10 @@ def _work(chunk):
             nontrivial += 1
         if r["outcome"] != "fail":
             continue
+        sig = (r["symptom"], json.dumps(core_tags(case)))
+        shrunk_per_sig[sig] = shrunk_per_sig.get(sig, 0) + 1
+        if shrunk_per_sig[sig] > SHRINKS_PER_SIGNATURE:
+            continue  # counted as failing; its class (symptom, features of the whole case) was already minimised several times
         core = shrink(case, r["symptom"])
         ck = json.dumps(core, sort_keys=True)
         if ck not in shrink_cache:
@@ -738,8 +752,9 @@ def run(ctx: Ctx) -> None:
                f"{len(POOLS)} pools of 3 functions (plain incl. formals named like module floats; formals named like model components; two functions named `rate`; "
                "functions named init_<f> / <rxn>_stoich_<f>; lambdas; for-loop, math constant, if/return, math call) x every assignment of the 3 functions to the first "
                "1..4 slots x argument pattern per slot (n1,n2 / n2,n1 / n1,n1): "
-               + ("all assignments to <= 2 components, 3-4 components sampled" if ctx.tier == "quick" else
-                  "all assignments to <= 3 components, all 6561 assignments to 4 components for the pools plain/formals/samename/keyclash, 900 sampled for the others")
+               + ("all assignments to 1 component, to 2 components for the pools plain/formals/samename/keyclash, the rest sampled" if ctx.tier == "quick" else
+                  "all assignments to <= 3 components, all 6561 assignments to 4 components for the pools plain/formals/samename/keyclash on skeletons SK1 and SK2, "
+                  "1200 sampled per (skeleton, pool) otherwise")
                + f"; {counts.get('rejected', 0)} generations raised for untranslatable functions (allowed), {counts.get('skipped', 0)} skipped; "
                f"emitter post-condition evaluated {evals} times; + {n_unit} models with units"),
         cases=total, distinct_nontrivial=sum(r["nontrivial"] for r in results),
